@@ -237,6 +237,11 @@ Ltac split_ifs :=
           | |- context [if ?c then _ else _] => destruct c eqn:?
           end); cbn [bbind obind of_outcome]; try reflexivity; try congruence.
 
+(* x in {'!s', '!r', '!a'}, in whatever order the set is written *)
+Ltac conv_set :=
+  intros cv; unfold str_in, existsb, s_conv_s, s_conv_r, s_conv_a;
+  destruct (FmtPyBrace.list_eqb cv [33; 115]%N), (FmtPyBrace.list_eqb cv [33; 114]%N), (FmtPyBrace.list_eqb cv [33; 97]%N); reflexivity.
+
 Theorem src_field_init_eq st f a b : nested_ok (f_nested f) ->
   src_pybrace_field_init O (st_of st) {| pm_start := a; pm_end := b; pm_groups := BField f |} = of_st (field_init U M st f).
 Proof.
@@ -278,10 +283,12 @@ Proof.
     destruct (N.eqb c 58); cbn [negb]; [|reflexivity].
     cbn [str_tail List.tl o_format_spec_match model_oracles]. unfold spec_types.
     destruct (m_format_spec U ft) as [m|]; [|reflexivity].
-    assert (Hconv : forall tp,
+    assert (Hconv : forall (l : list pystr),
+      (forall cv, str_in cv l = (FmtPyBrace.list_eqb cv s_conv_s || FmtPyBrace.list_eqb cv s_conv_r || FmtPyBrace.list_eqb cv s_conv_a)) ->
+      forall tp,
       match f_conv f with
       | Some x =>
-        if str_in x [[33; 115]; [33; 114]; [33; 97]]%N
+        if str_in x l
         then if negb (t_str tp) then BRaise (XOwn BFormatTypeMismatch)
              else BRet (state_set_cell {| s_amap := Some (amap_append key None (img (b_map st))); s_next := b_next st1 |}
                           (key, amap_count key (img (b_map st))) (Some tp))
@@ -289,10 +296,9 @@ Proof.
       | None => BRet (state_set_cell {| s_amap := Some (amap_append key None (img (b_map st))); s_next := b_next st1 |}
                         (key, amap_count key (img (b_map st))) (Some tp))
       end = of_st (do _ <- conv_check (f_conv f) tp; Ok (file_field st1 key (FField tp)))).
-    { intros tp. rewrite set_filed, (st_of_file _ _ _ _ Em). unfold conv_check. destruct (f_conv f) as [cv|]; [|reflexivity].
-      unfold str_in, existsb, s_conv_s, s_conv_r, s_conv_a.
-      destruct (FmtPyBrace.list_eqb cv [33; 115]%N), (FmtPyBrace.list_eqb cv [33; 114]%N), (FmtPyBrace.list_eqb cv [33; 97]%N);
-        cbn [orb]; destruct (t_str tp); reflexivity. }
+    { intros l Hl tp. rewrite set_filed, (st_of_file _ _ _ _ Em). unfold conv_check. destruct (f_conv f) as [cv|]; [|reflexivity].
+      rewrite Hl. destruct (FmtPyBrace.list_eqb cv s_conv_s || FmtPyBrace.list_eqb cv s_conv_r || FmtPyBrace.list_eqb cv s_conv_a);
+        destruct (t_str tp); reflexivity. }
     rewrite !bbind_assoc, of_st_bind, !of_pb_bind, !bbind_assoc.
     (* presentation type *)
     apply bbind_ext.
@@ -313,10 +319,10 @@ Proof.
         destruct (py_int U w); cbn [of_outcome bbind obind]; try reflexivity; split_ifs
        |intros _]).
     (* precision, then the conversion *)
-    all: destruct (sp_prec m) as [pr|]; cbn [bbind of_pb of_outcome]; [|apply Hconv].
+    all: destruct (sp_prec m) as [pr|]; cbn [bbind of_pb of_outcome]; [|apply Hconv; conv_set].
     all: destruct (t_empty (t_and tp1 {| t_str := true; t_int := false; t_float := true |})); [reflexivity|].
     all: cbn [o_int model_oracles]; destruct (py_int U pr) as [v|e|cr']; cbn [of_outcome bbind obind]; try reflexivity.
-    all: destruct (Z.gtb v M); cbn [of_outcome bbind]; [reflexivity|apply Hconv].
+    all: destruct (Z.gtb v M); cbn [of_outcome bbind]; [reflexivity|apply Hconv; conv_set].
 Qed.
 
 (* ---------------------------------------------------------------- facts about the scanners: what is left is a suffix;
@@ -439,9 +445,9 @@ Proof.
   destruct (fst (span is_printable_ascii s)); reflexivity.
 Qed.
 
-Lemma src_pybrace_loop_eq {A} s0 (K : nat * option amap * option Z -> bres pb_err A) (KM : bstate -> bres pb_err A) :
-  (forall lp am nx, lp <> length s0 -> K (lp, am, nx) = pb_raise_prefix (skipn lp s0)) ->
-  (forall st, K (length s0, Some (img (b_map st)), b_next st) = KM st) ->
+Lemma src_pybrace_loop_eq {A} s0 (K : option amap * option Z * nat -> bres pb_err A) (KM : bstate -> bres pb_err A) :
+  (forall lp am nx, lp <> length s0 -> K (am, nx, lp) = pb_raise_prefix (skipn lp s0)) ->
+  (forall st, K (Some (img (b_map st)), b_next st, length s0) = KM st) ->
   forall fuel s pos st, (length s < fuel)%nat -> skipn pos s0 = s -> (pos + length s = length s0)%nat ->
   bbind (src_pybrace_init_loop1 O s0 (Some (img (b_map st))) (b_next st) pos (py_finditer (m_field_re U) fuel pos s)) K =
   match bloop U M fuel s st with Ok st' => KM st' | Err e => BRaise (XOwn e) | Crash c => BRaise (XCrash c) end.
